@@ -14,6 +14,8 @@ import (
 	"verif/bitsim"
 	"verif/circgen"
 	"verif/mpcl"
+	"verif/mpclgen"
+	"verif/refsem"
 	"verif/runner"
 	"verif/sess"
 	"verif/valpha"
@@ -327,6 +329,40 @@ func work(ctx *runner.Ctx) {
 			k.OT, k.Regime, k.Seed = "ideal", fmt.Sprintf("cut:%d", off), seed
 			cases = append(cases, k)
 		}
+	}
+	// (f) a stride through the statement-level and cast families of the C03 program generator (two-argument mains)
+	{
+		n := 0
+		stride := 2
+		if quick {
+			stride = 13
+		}
+		genEmit := func(g mpclgen.Gen) {
+			ps := g.P.Main().Params
+			if len(ps) != 2 || ps[0].T.N > 0 || len(ps[0].T.Fields) > 0 || ps[1].T.N > 0 || len(ps[1].T.Fields) > 0 || ps[0].T.Bool || ps[1].T.Bool {
+				return
+			}
+			n++
+			if n%stride != 0 {
+				return
+			}
+			in := func(t refsem.Type, odd bool) string {
+				w := t.W
+				if t.Signed {
+					w--
+				}
+				v := new(big.Int)
+				for i := 0; i < w; i++ {
+					if (i%2 == 1) == odd || i == 0 {
+						v.SetBit(v, i, 1)
+					}
+				}
+				return v.String()
+			}
+			cases = append(cases, cs{Src: g.P.Src(), G: in(ps[0].T, false), E: in(ps[1].T, true), OT: ots[n%len(ots)], Regime: "all", Seed: seed})
+		}
+		mpclgen.Statements(quick, genEmit)
+		mpclgen.Casts(quick, genEmit)
 	}
 	ctx.Note(fmt.Sprintf("case list: %d sessions", len(cases)))
 	for i, k := range cases {
